@@ -31,3 +31,7 @@ register_object("HttpDataTransform", {"tsteps": "mlist[tuple[str,any]]", "rsteps
                 "dissect.cobaltstrike.c2")
 
 register_object("HttpBeaconClient", {"task_map": "any", "beacon_id": "any", "counter": "int", "pid": "any"}, "dissect.cobaltstrike.client")
+
+register_object("C2Http", {"get_verb": "bytes", "submit_verb": "bytes", "submit_uri": "bytes", "get_uris": "tuplelist[bytes]",
+                           "transform_get": "obj:HttpDataTransform", "transform_submit": "obj:HttpDataTransform",
+                           "transform_response": "obj:HttpDataTransform"}, "dissect.cobaltstrike.c2")
